@@ -177,6 +177,7 @@ def run(ctx):
                 if any(x[0] == "call" and x[1] == "core::slice::contains" and x[3] is False for x in g):
                     uniq_guards.append(cs)
     r.count("functions on the struct-name path", len(path_fns))
+    hint_rules(r, lib, path_fns)
     r.ob("G2.reserved-word-guard", "struct-name path", bool(reserved_calls),
          "struct identifiers pass %s" % cname(reserved_calls[0].node) if reserved_calls else
          "no reserved-word / prelude guard on the struct-name path (%s): `<self>` renders `pub struct Self`, elements named String/Vec/Option shadow the types used by sibling fields" % sorted(x.split("::")[-1] for x in path_fns),
@@ -247,3 +248,59 @@ def _is_loop_child(t):
 def _same_root(b, operand, R, arg):
     p = mir.op_place(operand)
     return p is not None and b.through_ref(p)["l"] == arg
+
+
+MAP_KEYED = ("get", "get_mut", "insert", "contains_key", "entry", "remove")
+
+
+def hint_rules(r, lib, path_fns):
+    """H1/H2: the partial disambiguation mechanism for struct names (name hints) is keyed by the struct-name
+    producer itself and tests distinctness over the whole set of candidates"""
+    n_keys = 0
+    for n in sorted(path_fns):
+        bd = lib.bodies[n]
+        for cs in bd.calls():
+            nm = cname(cs.node)
+            if not (nm.startswith("std::collections::HashMap::") or nm.startswith("std::collections::BTreeMap::")) or method(cs.node) not in MAP_KEYED:
+                continue
+            if len(cs.node["args"]) < 2:
+                continue
+            n_keys += 1
+            org = bd.origins(cs.node["args"][1], transparent=lambda t: cname(t) in mir.VALUE_PRESERVING)
+            from_producer = any(o[0] == "call" and cname(o[1].node).endswith("Element::formatted_name") for o in org)
+            from_table = any(o[0] == "call" and cname(o[1].node) == "std::iter::Iterator::next" and "hash_map" in str(o[1].node["callee"].get("targs", "")) for o in org) or \
+                any(o[0] == "call" and cname(o[1].node) == "std::iter::Iterator::next" for o in org)
+            ok = from_producer or from_table
+            r.ob("H2.hint-key-is-struct-name", "%s: %s" % (bd.name, nm), ok,
+                 "the hint table is keyed by formatted_name() (the same function that produces the struct name)" if from_producer else
+                 "key copied from the other hint table" if ok else
+                 "the hint table is keyed by something other than the struct-name producer: elements whose tags differ but whose struct names coincide are not disambiguated against each other",
+                 site=cs, key="H2|%s|%s|%s" % (bd.name, nm, "ok" if ok else "bad"))
+    r.ob("H2.hint-key-inventory", "struct-name path", n_keys >= 4, "%d keyed accesses to the hint tables" % n_keys, key="H2|inventory")
+    # H1: distinctness test over the whole candidate set
+    found = False
+    for n in sorted(path_fns):
+        bd = lib.bodies[n]
+        for cs in bd.calls():
+            if cname(cs.node) == "std::iter::Iterator::collect":
+                targs = cs.node["callee"].get("targs", [])
+                tgt = targs[1] if len(targs) > 1 else {}
+                if tgt.get("adt") not in ("std::collections::HashSet", "std::collections::BTreeSet"):
+                    continue
+                # some early return must be guarded by len(set) == len(candidates)
+                for s in bd.assigns():
+                    if s.node["place"]["l"] != 0 or s.node["place"]["p"]:
+                        continue
+                    for g in guards_of(bd, s.bb):
+                        if g[0] == "value" and g[2] is True:
+                            t = g[1]
+                            if t[0] == "binop" and t[1] == "Eq":
+                                sides = [strip(t[2]), strip(t[3])]
+                                has_set = any(x[0] == "call" and x[1].endswith("::len") and any(st[0] == "call" and len(st) > 3 and st[3] == cs for st in mir.subterms(x)) for x in sides)
+                                has_all = any(x[0] == "call" and x[1].endswith("::len") and any(st == ("arg", 1) for st in mir.subterms(x)) for x in sides)
+                                if has_set and has_all:
+                                    found = True
+    r.ob("H1.hint-distinctness-whole-set", "struct-name path", found,
+         "a shorter qualification is accepted only when the set of all candidate names has as many members as there are candidates" if found else
+         "no `all candidates pairwise distinct` test (set cardinality == number of candidates) guards the choice of the qualification length",
+         key="H1|distinct")
